@@ -8,6 +8,9 @@
 // Layer (c) TestSessions: through the real PostgreSQL proxy a rejected statement never reaches the
 // database, the client gets an error + ready state, and later statements are processed by their own
 // column configuration.
+// Layer (d) TestFirewallSessionsMySQL (my_session_test.go): the same through the real MySQL proxy against a scripted
+// server whose replies are numbered: statements as COM_QUERY / COM_STMT_* / SQL-level PREPARE, mixed with protocol
+// events that change the proxy's state machine.
 package c05
 
 import (
